@@ -34,6 +34,10 @@ def main():
     tempfile.tempdir = tmp
     modname, prop = CHECKS[args.prop]
     mod = importlib.import_module(modname)
+    from .common import cov_start, cov_stop
+    cov_start()
+    import atexit
+    atexit.register(cov_stop)
     try:
         if args.replay:
             rc = mod.replay(prop, args.replay)
